@@ -486,6 +486,14 @@ func (s *Statement) unpipeline(
 		return fmt.Errorf("node doesnt exist on cluster")
 	}
 
+	// The caller assigns task.GPUGroups before Pipeline, so the recorded previous groups may already be the new
+	// ones. A task that is still on its previous node (virtually evicted) has the groups that node holds for it.
+	if previousNodeInfo, found := s.ssn.ClusterInfo.Nodes[previousNode]; found {
+		if taskOnPreviousNode, found := previousNodeInfo.PodInfos[pod_info.PodKey(task.Pod)]; found {
+			task.GPUGroups = taskOnPreviousNode.GPUGroups
+		}
+	}
+
 	for _, eh := range s.ssn.eventHandlers {
 		if eh.DeallocateFunc != nil {
 			eh.DeallocateFunc(&Event{
